@@ -403,3 +403,15 @@ def get_path(case, path, dflt=None):
         else:
             d = d[k]
     return d
+
+
+def loss_shape(want, got):
+    """How does the byte string a sink received relate to what was written?  'prefix': a tail is missing; 'gaps': bytes are missing in
+    up to 16 contiguous ranges but nothing was altered, added or reordered; 'other': anything else."""
+    if want.startswith(got):
+        return "prefix"
+    import difflib
+    ops = difflib.SequenceMatcher(None, want, got, autojunk=False).get_opcodes()
+    if all(o[0] in ("equal", "delete") for o in ops) and sum(1 for o in ops if o[0] == "delete") <= 16:
+        return "gaps"
+    return "other"
